@@ -103,6 +103,12 @@ def compare_cli(case, end, last, res):
     if end == "success":
         if rc != 0:
             return ("cli-mismatch", "library pipeline succeeds but penne emit exits with %s: %s" % (rc, res["stderr"][-300:]))
+        # ... and the tool shows the lints of EVERY module (eighth round of seeded changes: it took them once, after its loop
+        # over the modules): as many tags per lint code as the library pipeline collected
+        want = sorted("L%d" % d["code"] for d in last.get("lints", []) if d.get("code", 0) >= 1000)
+        got = sorted(t for t in TAG_RE.findall(res["stderr"] + res["stdout"]) if t.startswith("L"))
+        if want != got:
+            return ("cli-lints", "library pipeline collects the lints %s, penne emit shows %s" % (want, got))
         return None
     if end in ("failure", "silent", "internal"):
         if rc == 0:
@@ -339,6 +345,9 @@ def run(rep, tier, seed, selftest):
     # ... and EVERY nesting input: the optimised binary has the 8 MiB stack of a main thread and its own frame sizes; the
     # bound of the property (depth 256) is close to what it can take (a fix of this session moved the limit across it)
     sample += [i for i in ids if cases[i].get("kind") == "nest"]
+    # ... and successful runs of SEVERAL modules that collected lints (up to 300): what the tool shows per module
+    linted = [i for i in ids if ends[i][0] == "success" and len(cases[i].get("mods", [])) >= 2 and ends[i][1].get("lints")]
+    sample += linted[:300]
     anomalies = [i for i in ids if ends[i][0] not in ("success", "failure")]
     anomalies = sorted(set(anomalies[:200] + [i for i in anomalies if i in stack_pending]))
     root = os.path.join(common.WORK, "pipeline-emit-%d" % os.getpid())
